@@ -348,3 +348,64 @@ class Sandbox(object):
             argv = argv.split()
         pid, files = self.spawn(argv, **kw)
         return self.collect(pid, files)
+
+
+def _probe_denote(args):
+    """R7: what directory entry does each argument spelling name (kernel truth, inside the chroot)"""
+    import stat as st
+    out = []
+    for s in args:
+        d = {'arg': s}
+        try:
+            os.lstat(s)
+            d['resolvable'] = True
+        except (OSError, ValueError):
+            d['resolvable'] = False
+        q = s.rstrip('/') or ('/' if s.startswith('/') else '')
+        if q == '':
+            d.update(entry=None, dot=False)
+            out.append(d)
+            continue
+        par, b = os.path.split(q)
+        if b in ('', '.', '..'):
+            d['dot'] = True
+            d['entry'] = os.path.realpath(q)
+        else:
+            d['dot'] = False
+            d['entry'] = os.path.join(os.path.realpath(par or '.'), b)
+        try:
+            m = os.lstat(d['entry']).st_mode
+            d['kind'] = 'l' if st.S_ISLNK(m) else 'd' if st.S_ISDIR(m) else 'f'
+        except OSError:
+            d['kind'] = None
+        out.append(d)
+    return out
+
+
+def _sandbox_probe(self, fn, arg, cwd=None):
+    """run fn(arg) in a forked child chrooted into the world (no shim); JSON result"""
+    self.nrun += 1
+    path = os.path.join(self.dir, 'p%d.json' % self.nrun)
+    pid = os.fork()
+    if pid == 0:
+        code = 1
+        try:
+            fd = os.open(path, os.O_WRONLY | os.O_CREAT | os.O_TRUNC, 0o600)
+            os.chroot(self.root)
+            os.chdir(cwd or self.spec.get('cwd', '/'))
+            data = json.dumps(fn(arg)).encode()
+            os.write(fd, data)
+            code = 0
+        finally:
+            os._exit(code)
+    _, status = os.waitpid(pid, 0)
+    if status != 0:
+        raise HarnessError('HARNESS-PROBE-FAILED')
+    with open(path) as f:
+        r = json.load(f)
+    os.unlink(path)
+    return r
+
+
+Sandbox.probe = _sandbox_probe
+Sandbox.denote = lambda self, args, cwd=None: self.probe(_probe_denote, list(args), cwd)
